@@ -1,0 +1,197 @@
+//go:build verif
+
+// Contracts for package input, checked by /verif (govc). This file contains only
+// comments; it is compiled into nothing and is excluded unless -tags verif is set.
+package input
+
+//@ func newPtr
+//@   property C09
+//@   ensures [nil_iff] (result == nil) <==> (i == nil)
+//@   ensures [value] i != nil ==> *result == *i
+
+//@ func mergePtr
+//@   property C09
+//@   ensures [nil_iff] (result == nil) <==> (a == nil && b == nil)
+//@   ensures [later_wins] b != nil ==> *result == *b
+//@   ensures [earlier_kept] b == nil && a != nil ==> *result == *a
+
+//@ func mergeMap
+//@   property C09 C08
+//@   ensures [nil_iff] (result == nil) <==> (a == nil && b == nil)
+//@   ensures [dom] forall k string :: (k in result) <==> (k in a || k in b)
+//@   ensures [later_wins] forall k string :: k in b ==> result[k] == b[k]
+//@   ensures [earlier_kept] forall k string :: k in a && !(k in b) ==> result[k] == a[k]
+//@   loop 1
+//@     invariant [nonnil] r != nil
+//@     invariant [dom] forall k string :: (k in r) <==> (($i >= 1 && k in a) || ($i >= 2 && k in b))
+//@     invariant [later] forall k string :: $i >= 2 && k in b ==> r[k] == b[k]
+//@     invariant [earlier] forall k string :: $i >= 1 && k in a && !($i >= 2 && k in b) ==> r[k] == a[k]
+//@   loop 2
+//@     invariant [nonnil] r != nil
+//@     invariant [dom] forall k string :: (k in r) <==> (k in entry(r) || k in visited)
+//@     invariant [new] forall k string :: k in visited ==> r[k] == m[k]
+//@     invariant [kept] forall k string :: !(k in visited) && k in entry(r) ==> r[k] == entry(r)[k]
+
+//@ spec optMerged(r *string, a *string, b *string) bool = (b != nil ==> r == b) && (b == nil ==> r == a)
+//@ spec optMergedBool(r *bool, a *bool, b *bool) bool = (b != nil ==> r == b) && (b == nil ==> r == a)
+//@ spec optMergedScope(r *Scope, a *Scope, b *Scope) bool = (b != nil ==> r == b) && (b == nil ==> r == a)
+//@ spec optMergedVersion(r *Version, a *Version, b *Version) bool = (b != nil ==> r == b) && (b == nil ==> r == a)
+
+//@ spec mapMergedSS(r map[string]string, a map[string]string, b map[string]string) bool =
+//@      ((r == nil) <==> (a == nil && b == nil))
+//@   && (forall k string :: (k in r) <==> (k in a || k in b))
+//@   && (forall k string :: k in b ==> r[k] == b[k])
+//@   && (forall k string :: k in a && !(k in b) ==> r[k] == a[k])
+
+//@ spec mapMergedSA(r map[string]any, a map[string]any, b map[string]any) bool =
+//@      ((r == nil) <==> (a == nil && b == nil))
+//@   && (forall k string :: (k in r) <==> (k in a || k in b))
+//@   && (forall k string :: k in b ==> r[k] == b[k])
+//@   && (forall k string :: k in a && !(k in b) ==> r[k] == a[k])
+
+//@ spec sameAnys(x []any, y []any) bool =
+//@      len(x) == len(y) && ((x == nil) <==> (y == nil)) && (forall j int :: 0 <= j && j < len(x) ==> x[j] == y[j])
+
+//@ func mergeMeta
+//@   property C09
+//@   ensures [pkg] optMerged(result.Pkg, m1.Pkg, m2.Pkg)
+//@   ensures [container_type] optMerged(result.ContainerType, m1.ContainerType, m2.ContainerType)
+//@   ensures [container_constructor] optMerged(result.ContainerConstructor, m1.ContainerConstructor, m2.ContainerConstructor)
+//@   ensures [default_must_getter] optMergedBool(result.DefaultMustGetter, m1.DefaultMustGetter, m2.DefaultMustGetter)
+//@   ensures [imports] mapMergedSS(result.Imports, m1.Imports, m2.Imports)
+//@   ensures [functions] mapMergedSS(result.Functions, m1.Functions, m2.Functions)
+
+//@ func mergeArgs
+//@   property C09
+//@   ensures [later_nonempty_replaces] len(b) > 0 ==> sameAnys(result, b)
+//@   ensures [earlier_kept] len(b) == 0 ==> sameAnys(result, a)
+
+//@ func mergeService pure
+//@   property C09 C04
+//@   ensures [getter] optMerged(result.Getter, s1.Getter, s2.Getter)
+//@   ensures [must_getter] optMergedBool(result.MustGetter, s1.MustGetter, s2.MustGetter)
+//@   ensures [type] optMerged(result.Type, s1.Type, s2.Type)
+//@   ensures [value] optMerged(result.Value, s1.Value, s2.Value)
+//@   ensures [constructor] optMerged(result.Constructor, s1.Constructor, s2.Constructor)
+//@   ensures [scope] optMergedScope(result.Scope, s1.Scope, s2.Scope)
+//@   ensures [todo] optMergedBool(result.Todo, s1.Todo, s2.Todo)
+//@   ensures [args_later] len(s2.Args) > 0 ==> sameAnys(result.Args, s2.Args)
+//@   ensures [args_earlier] len(s2.Args) == 0 ==> sameAnys(result.Args, s1.Args)
+//@   ensures [fields] mapMergedSA(result.Fields, s1.Fields, s2.Fields)
+//@   ensures [calls_len] len(result.Calls) == len(s1.Calls) + len(s2.Calls)
+//@   ensures [calls_earlier] forall j int :: 0 <= j && j < len(s1.Calls) ==> result.Calls[j] == s1.Calls[j]
+//@   ensures [calls_later] forall j int :: 0 <= j && j < len(s2.Calls) ==> result.Calls[len(s1.Calls) + j] == s2.Calls[j]
+//@   ensures [calls_later_by_pos] forall q int :: len(s1.Calls) <= q && q < len(s1.Calls) + len(s2.Calls) ==> result.Calls[q] == s2.Calls[q - len(s1.Calls)]
+//@   ensures [tags_len] len(result.Tags) == len(s1.Tags) + len(s2.Tags)
+//@   ensures [tags_earlier] forall j int :: 0 <= j && j < len(s1.Tags) ==> result.Tags[j] == s1.Tags[j]
+//@   ensures [tags_later] forall j int :: 0 <= j && j < len(s2.Tags) ==> result.Tags[len(s1.Tags) + j] == s2.Tags[j]
+//@   ensures [tags_later_by_pos] forall q int :: len(s1.Tags) <= q && q < len(s1.Tags) + len(s2.Tags) ==> result.Tags[q] == s2.Tags[q - len(s1.Tags)]
+
+//@ func mergeServices
+//@   property C09
+//@   ensures [nonnil] result != nil
+//@   ensures [dom] forall k string :: (k in result) <==> (k in a || k in b)
+//@   ensures [only_earlier] forall k string :: k in a && !(k in b) ==> result[k] == a[k]
+//@   ensures [only_later] forall k string :: k in b && !(k in a) ==> result[k] == b[k]
+//@   ensures [both] forall k string :: k in a && k in b ==> result[k] == mergeService(a[k], b[k])
+//@   loop 1
+//@     invariant [nonnil] r != nil
+//@     invariant [dom] forall k string :: (k in r) <==> (k in visited)
+//@     invariant [val] forall k string :: k in visited ==> r[k] == a[k]
+//@   loop 2
+//@     invariant [nonnil] r != nil
+//@     invariant [dom] forall k string :: (k in r) <==> (k in a || k in visited)
+//@     invariant [untouched] forall k string :: k in a && !(k in visited) ==> r[k] == a[k]
+//@     invariant [only_later] forall k string :: k in visited && !(k in a) ==> r[k] == b[k]
+//@     invariant [both] forall k string :: k in visited && k in a ==> r[k] == mergeService(a[k], b[k])
+
+//@ func Merge pure
+//@   property C09 C04
+//@   ensures [version] optMergedVersion(result.Version, i1.Version, i2.Version)
+//@   ensures [meta_pkg] optMerged(result.Meta.Pkg, i1.Meta.Pkg, i2.Meta.Pkg)
+//@   ensures [meta_container_type] optMerged(result.Meta.ContainerType, i1.Meta.ContainerType, i2.Meta.ContainerType)
+//@   ensures [meta_container_constructor] optMerged(result.Meta.ContainerConstructor, i1.Meta.ContainerConstructor, i2.Meta.ContainerConstructor)
+//@   ensures [meta_default_must_getter] optMergedBool(result.Meta.DefaultMustGetter, i1.Meta.DefaultMustGetter, i2.Meta.DefaultMustGetter)
+//@   ensures [meta_imports] mapMergedSS(result.Meta.Imports, i1.Meta.Imports, i2.Meta.Imports)
+//@   ensures [meta_functions] mapMergedSS(result.Meta.Functions, i1.Meta.Functions, i2.Meta.Functions)
+//@   ensures [params] mapMergedSA(result.Params, i1.Params, i2.Params)
+//@   ensures [services_dom] forall k string :: (k in result.Services) <==> (k in i1.Services || k in i2.Services)
+//@   ensures [services_only_earlier] forall k string :: k in i1.Services && !(k in i2.Services) ==> result.Services[k] == i1.Services[k]
+//@   ensures [services_only_later] forall k string :: k in i2.Services && !(k in i1.Services) ==> result.Services[k] == i2.Services[k]
+//@   ensures [services_both] forall k string :: k in i1.Services && k in i2.Services ==> result.Services[k] == mergeService(i1.Services[k], i2.Services[k])
+//@   ensures [decorators_len] len(result.Decorators) == len(i1.Decorators) + len(i2.Decorators)
+//@   ensures [decorators_earlier] forall j int :: 0 <= j && j < len(i1.Decorators) ==> result.Decorators[j] == i1.Decorators[j]
+//@   ensures [decorators_later] forall j int :: 0 <= j && j < len(i2.Decorators) ==> result.Decorators[len(i1.Decorators) + j] == i2.Decorators[j]
+//@   ensures [decorators_later_by_pos] forall q int :: len(i1.Decorators) <= q && q < len(i1.Decorators) + len(i2.Decorators) ==> result.Decorators[q] == i2.Decorators[q - len(i1.Decorators)]
+
+// ---- merge algebra (C09): associativity and identity, as lemmas over the contracts above.
+// Equivalence is extensional and treats nil and empty maps/slices alike (downstream code
+// only uses len, range and lookups).
+
+//@ spec equivMapSS(x map[string]string, y map[string]string) bool =
+//@   forall k string :: ((k in x) <==> (k in y)) && (k in x ==> x[k] == y[k])
+//@ spec equivMapSA(x map[string]any, y map[string]any) bool =
+//@   forall k string :: ((k in x) <==> (k in y)) && (k in x ==> x[k] == y[k])
+//@ spec equivAnys(x []any, y []any) bool =
+//@   len(x) == len(y) && (forall j int :: 0 <= j && j < len(x) ==> x[j] == y[j])
+//@ spec equivCalls(x []Call, y []Call) bool =
+//@   len(x) == len(y) && (forall j int :: 0 <= j && j < len(x) ==> x[j] == y[j])
+//@ spec equivTags(x []Tag, y []Tag) bool =
+//@   len(x) == len(y) && (forall j int :: 0 <= j && j < len(x) ==> x[j] == y[j])
+//@ spec equivDecorators(x []Decorator, y []Decorator) bool =
+//@   len(x) == len(y) && (forall j int :: 0 <= j && j < len(x) ==> x[j] == y[j])
+//@ spec equivService(x Service, y Service) bool =
+//@      x.Getter == y.Getter && x.MustGetter == y.MustGetter && x.Type == y.Type && x.Value == y.Value
+//@   && x.Constructor == y.Constructor && x.Scope == y.Scope && x.Todo == y.Todo
+//@   && equivAnys(x.Args, y.Args) && equivCalls(x.Calls, y.Calls) && equivTags(x.Tags, y.Tags)
+//@   && equivMapSA(x.Fields, y.Fields)
+//@ spec equivMeta(x Meta, y Meta) bool =
+//@      x.Pkg == y.Pkg && x.ContainerType == y.ContainerType && x.ContainerConstructor == y.ContainerConstructor
+//@   && x.DefaultMustGetter == y.DefaultMustGetter && equivMapSS(x.Imports, y.Imports) && equivMapSS(x.Functions, y.Functions)
+
+//@ lemma mergeService_assoc(s1 Service, s2 Service, s3 Service)
+//@   property C09
+//@   ensures [scalars] let l = mergeService(mergeService(s1, s2), s3) :: let r = mergeService(s1, mergeService(s2, s3)) ::
+//@        l.Getter == r.Getter && l.MustGetter == r.MustGetter && l.Type == r.Type && l.Value == r.Value
+//@     && l.Constructor == r.Constructor && l.Scope == r.Scope && l.Todo == r.Todo
+//@   ensures [args] equivAnys(mergeService(mergeService(s1, s2), s3).Args, mergeService(s1, mergeService(s2, s3)).Args)
+//@   ensures [calls] equivCalls(mergeService(mergeService(s1, s2), s3).Calls, mergeService(s1, mergeService(s2, s3)).Calls)
+//@   ensures [tags] equivTags(mergeService(mergeService(s1, s2), s3).Tags, mergeService(s1, mergeService(s2, s3)).Tags)
+//@   ensures [fields] equivMapSA(mergeService(mergeService(s1, s2), s3).Fields, mergeService(s1, mergeService(s2, s3)).Fields)
+
+//@ lemma mergeService_id(s Service, e Service)
+//@   property C09
+//@   requires e.Getter == nil && e.MustGetter == nil && e.Type == nil && e.Value == nil && e.Constructor == nil
+//@   requires e.Scope == nil && e.Todo == nil && empty(e.Args) && empty(e.Calls) && empty(e.Tags) && empty(e.Fields)
+//@   ensures [right] equivService(mergeService(s, e), s)
+//@   ensures [left] equivService(mergeService(e, s), s)
+
+//@ spec emptyInput(e Input) bool =
+//@      e.Version == nil && e.Meta.Pkg == nil && e.Meta.ContainerType == nil && e.Meta.ContainerConstructor == nil
+//@   && e.Meta.DefaultMustGetter == nil && empty(e.Meta.Imports) && empty(e.Meta.Functions)
+//@   && empty(e.Params) && empty(e.Services) && empty(e.Decorators)
+
+//@ lemma merge_id(a Input, e Input)
+//@   property C09
+//@   requires emptyInput(e)
+//@   ensures [right_version] Merge(a, e).Version == a.Version
+//@   ensures [right_meta] equivMeta(Merge(a, e).Meta, a.Meta)
+//@   ensures [right_params] equivMapSA(Merge(a, e).Params, a.Params)
+//@   ensures [right_services] forall k string :: ((k in Merge(a, e).Services) <==> (k in a.Services)) && (k in a.Services ==> Merge(a, e).Services[k] == a.Services[k])
+//@   ensures [right_decorators] equivDecorators(Merge(a, e).Decorators, a.Decorators)
+//@   ensures [left_version] Merge(e, a).Version == a.Version
+//@   ensures [left_meta] equivMeta(Merge(e, a).Meta, a.Meta)
+//@   ensures [left_params] equivMapSA(Merge(e, a).Params, a.Params)
+//@   ensures [left_services] forall k string :: ((k in Merge(e, a).Services) <==> (k in a.Services)) && (k in a.Services ==> Merge(e, a).Services[k] == a.Services[k])
+//@   ensures [left_decorators] equivDecorators(Merge(e, a).Decorators, a.Decorators)
+
+//@ lemma merge_assoc(a Input, b Input, c Input)
+//@   property C09
+//@   uses mergeService_assoc
+//@   ensures [version] Merge(Merge(a, b), c).Version == Merge(a, Merge(b, c)).Version
+//@   ensures [meta] equivMeta(Merge(Merge(a, b), c).Meta, Merge(a, Merge(b, c)).Meta)
+//@   ensures [params] equivMapSA(Merge(Merge(a, b), c).Params, Merge(a, Merge(b, c)).Params)
+//@   ensures [services_dom] forall k string :: (k in Merge(Merge(a, b), c).Services) <==> (k in Merge(a, Merge(b, c)).Services)
+//@   ensures [services_val] forall k string :: k in Merge(Merge(a, b), c).Services ==>
+//@        equivService(Merge(Merge(a, b), c).Services[k], Merge(a, Merge(b, c)).Services[k])
+//@   ensures [decorators] equivDecorators(Merge(Merge(a, b), c).Decorators, Merge(a, Merge(b, c)).Decorators)
